@@ -574,6 +574,8 @@ TEMPLATES = {
     "method": "class K:\n    def {A}(self):\n        return 1\n    def other(self):\n        return self.{A}()\nprint(K().other())\n",
     "method_unused": "class K:\n    def {A}(self):\n        return 1\nprint(K is not None)\n",
     "class_body_use": "class K:\n    {A} = 1\n    {B} = {A} + 1\nprint(K.{B})\n",
+    "class_body_alias": "def outer():\n    def {A}():\n        return 2\n    class K(object):\n        def {A}(self):\n            return 1\n        alias = {A}\n    return K().alias(), {A}()\nprint(outer())\n",
+    "method_and_function": "def outer():\n    class K(object):\n        def {A}(self):\n            return {A}() + 1\n    def {A}():\n        return 2\n    return K().{A}()\nprint(outer())\n",
     "keyword_arg": "def f({A}=1):\n    return {A}\nprint(f({A}=2))\n",
     "func_name": "def {A}(v):\n    return v\nprint({A}(2))\n",
     "func_name_kw": "def {A}(v):\n    return v\n{B} = 3\nprint({A}(v={B}))\n",
@@ -650,9 +652,13 @@ def binding_structure_diff(before: str, after: str):
     """None when `after` is `before` with identifiers renamed by one injective map (same scopes, same
     symbols with the same flags, in the same order); otherwise a description."""
     try:
-        ta, tb = symtable.symtable(before, "<a>", "exec"), symtable.symtable(after, "<b>", "exec")
+        ta = symtable.symtable(before, "<a>", "exec")
+    except SyntaxError:
+        return None            # the input is not a compilable program: nothing to compare
+    try:
+        tb = symtable.symtable(after, "<b>", "exec")
     except SyntaxError as e:
-        return f"symtable: {e}"
+        return f"the output does not compile: {e}"
     rho, inv = {}, {}
 
     def bind(x, y):
@@ -898,6 +904,9 @@ def oracle_any(mods, rule, src, execute=True):
     return oracle(mods, rule, src, structure=(rule == "align"))
 
 
+_FORMAT_CODE_BUDGET = [12]
+
+
 def naming_property_fails(mods, tag: int, s: str):
     """the property's own oracle on the real string functions + one end-to-end program"""
     style = mods["style"]
@@ -917,7 +926,11 @@ def naming_property_fails(mods, tag: int, s: str):
     if s.isidentifier() and not __import__("keyword").iskeyword(s) and s.isascii():
         for tpl in ("func_assign_only", "mod_assign_only", "class_in_func", "func_name"):
             src = TEMPLATES[tpl].format(A=s, B="other_name")
-            for rule in ("align", "format_code"):
+            rules = ["align"]
+            if tpl == "func_assign_only" and _FORMAT_CODE_BUDGET[0] > 0:     # the whole pipeline is slow
+                _FORMAT_CODE_BUDGET[0] -= 1
+                rules.append("format_code")
+            for rule in rules:
                 f = oracle(mods, rule, src, structure=False) if rule == "format_code" else oracle(mods, rule, src, True)
                 if f and rule == "format_code" and "raised" not in f["problem"]:
                     continue     # other stages of format_code are not the subject here; crashes are
